@@ -1,3 +1,4 @@
+#![allow(static_mut_refs, unused_imports, dead_code, unused_unsafe)]
 // Kani harnesses for src/common_file_operations.rs
 use super::*;
 use binrw::BinRead;
@@ -59,4 +60,59 @@ fn c14c_pipeline_witness() {
     let d: [u16; 1] = kani::any();
     let _ = read_half1(d);
     assert!(false);
+}
+
+// ------------------------------------------------------------------------------------- C17
+use crate::verif_support::refs::naive_memchr;
+
+/// read_string on ASCII bytes: never panics, returns the bytes with leading/trailing NULs removed
+#[kani::proof]
+#[kani::unwind(8)]
+fn c17_read_string_ascii() {
+    let b: [u8; 3] = kani::any();
+    kani::assume(b[0] < 128 && b[1] < 128 && b[2] < 128);
+    kani::assume(b[0] != 0 && b[1] != 0); // text then optional terminator
+    let s = read_string(b.to_vec());
+    let want = if b[2] == 0 { 2 } else { 3 };
+    assert_eq!(s.len(), want);
+    assert_eq!(s.as_bytes()[0], b[0]);
+    kani::cover!(b[2] == 0);
+    core::mem::forget(s);
+}
+
+/// ... and on arbitrary bytes (invalid UTF-8 is what a damaged file holds) it must not panic
+#[kani::proof]
+#[kani::unwind(8)]
+fn c17_read_string_any_bytes() {
+    let b: [u8; 2] = kani::any();
+    let s = read_string(b.to_vec());
+    kani::cover!(b[0] >= 0x80);
+    core::mem::forget(s);
+}
+
+/// write_string / get_string_len on text without NUL: bytes + terminator, length + 1
+#[kani::proof]
+#[kani::unwind(8)]
+fn c17_write_string_plain() {
+    let b: [u8; 3] = kani::any();
+    kani::assume(b[0] < 128 && b[1] < 128 && b[2] < 128 && b[0] != 0 && b[1] != 0 && b[2] != 0);
+    let s = unsafe { String::from_utf8_unchecked(b.to_vec()) };
+    let w = write_string(&s);
+    assert_eq!(w.len(), 4);
+    assert!(w[0] == b[0] && w[1] == b[1] && w[2] == b[2] && w[3] == 0);
+    assert_eq!(get_string_len(&s), 4);
+    kani::cover!(true);
+    core::mem::forget((s, w));
+}
+
+/// ... and text with an interior NUL (a user-supplied comment may hold one) must not panic
+#[kani::proof]
+#[kani::unwind(8)]
+fn c17_write_string_interior_nul() {
+    let b: [u8; 3] = kani::any();
+    kani::assume(b[0] < 128 && b[1] < 128 && b[2] < 128);
+    let s = unsafe { String::from_utf8_unchecked(b.to_vec()) };
+    let w = write_string(&s);
+    kani::cover!(b[1] == 0);
+    core::mem::forget((s, w));
 }
